@@ -191,6 +191,17 @@ Fixpoint obs_hist (buf : list byte) (ops : list hop) : list val :=
   | op :: r => let (b, res) := hist_step buf op in vt [VB b; res; variant] :: obs_hist b r
   end.
 Definition ob_hist (init_buf : list byte) (ops : list val) : val := VL (obs_hist init_buf (map d_hop ops)).
+(* the remaining bytes after k front steps (a failed step leaves the iterator where it is) *)
+Fixpoint front_k (k : nat) (s : st) : st :=
+  match k with
+  | O => s
+  | S k' => match nextf s with Some (_, s') => front_k k' s' | None => front_k k' s end
+  end.
+(* PartialEq / PartialOrd of two partially consumed Components: the code re-parses what remains of each
+   (src/unix/non_utf8/components.rs:115-140, src/windows/non_utf8/components.rs:256-285) *)
+Definition ob_cons_parity (a b : list byte) : val :=
+  VL (map (fun k => let ra := remaining (front_k k (init a)) in let rb := remaining (front_k k (init b)) in
+                    vt [VBool (o_eq ra rb); VSome (e_ord (o_cmp ra rb))]) [1%nat; 2%nat]).
 End Obs.
 
 Definition UE : encops := {|
